@@ -11,6 +11,7 @@ from harness.common import Ctx, Failure, Disagreement
 from harness.props import C04
 
 THEOREM_MODULES = ['ExaModel.Props.C11']
+DRIVERS = ['drv_rib']
 ASSUMPTIONS = C04.ASSUMPTIONS + [
     'RIB part only: the End-of-RIB markers and the reconnect path are covered by the session rig (C05/C10)',
     'include_withdraw=False at session start is set by the harness as Peer._main does (local variable of _main)',
